@@ -65,19 +65,22 @@ Proof.
       split; assumption.
 Qed.
 
-(* the text of the warning identifies the test among the tests of one contract: it contains the full
-   signature (breaks if the text is built from anything coarser, e.g. the bare function name) *)
-Lemma depth_msg_inj : forall f1 f2 d, depth_msg f1 d = depth_msg f2 d -> fi_sig f1 = fi_sig f2.
+(* the text of the warning identifies the test within the whole run: it contains the contract name and the full
+   signature (breaks if the text is built from anything coarser, e.g. the signature alone or the bare name) *)
+Definition test_id (f : fun_info) : Z * Z := (fi_contract f, fi_sig f).
+
+Lemma depth_msg_inj : forall f1 f2 d, depth_msg f1 d = depth_msg f2 d -> test_id f1 = test_id f2.
 Proof.
   intros f1 f2 d H. unfold depth_msg, depth_warn_key in H. cbn [map field_value app] in H.
-  inversion H. reflexivity.
+  unfold test_id. inversion H. reflexivity.
 Qed.
 
-(* MAIN (full strength within the scope where signatures are distinct, e.g. one test contract): for every
-   sequence of test executions, every --depth limit and every initial state of the filter that has not seen
-   their texts, each test's run prints the warning exactly when one of its states was abandoned *)
+(* MAIN (full strength): for every sequence of test executions of one halmos process with pairwise distinct
+   (contract, signature) -- overloads, the same signature in several contracts --, every --depth limit, every
+   number of abandoned states and every initial state of the filter that has not seen their texts, each test's
+   run prints the warning exactly when one of its states was abandoned *)
 Theorem depth_cut_reported : forall d runs records,
-  NoDup (map (fun t => fi_sig (tr_fun t)) runs) ->
+  NoDup (map (fun t => test_id (tr_fun t)) runs) ->
   (forall t, In t runs -> ~ In (depth_msg (tr_fun t) d) records) ->
   session d runs records = map was_cut runs.
 Proof.
@@ -93,20 +96,5 @@ Proof.
     intros t' Hin Hr. apply W2 in Hr. destruct Hr as [Hr|Hr].
     + apply (Hfresh t'); [right; exact Hin | exact Hr].
     + apply depth_msg_inj in Hr. apply Hnotin. rewrite <- Hr.
-      apply (in_map (fun t0 => fi_sig (tr_fun t0))). exact Hin.
-Qed.
-
-(* ... but the filter is process-wide and the text carries no contract name: the SAME signature in two test
-   contracts of one run gives the same text, the second test loses its warning.  The statement with
-   `distinct (contract, signature)` instead of `distinct signature` is false of the faithful model: *)
-Theorem depth_cut_reported_across_contracts_refuted :
-  exists d runs,
-    NoDup (map (fun t => (fi_contract (tr_fun t), fi_sig (tr_fun t))) runs) /\
-    session d runs [] <> map was_cut runs.
-Proof.
-  exists 200, [mkTestRun (mkFunInfo 1 5 7 9) 1; mkTestRun (mkFunInfo 2 5 7 9) 1].
-  split.
-  - cbn [map tr_fun fi_contract fi_sig]. constructor; [|constructor; [intros []|constructor]].
-    intros [H|[]]. discriminate H.
-  - vm_compute. discriminate.
+      apply (in_map (fun t0 => test_id (tr_fun t0))). exact Hin.
 Qed.
